@@ -7,6 +7,16 @@ NOTES = ("All checks: bin/check <id>. Each run regenerates coq/Gen from /repo, r
          "Known findings: KNOWN_FINDINGS.txt.")
 NOT_APPLICABLE = {}
 CLAIMED = {
+    "C08": {
+        "text": "Theorems: (a) a replacer whose lookup takes the highest-priority matching key, priorities decreasing in argument order, equals the "
+                "first-match-in-order specification for every table (overlapping, prefix-sharing, repeated keys) and restores a name standing at the current "
+                "position; (c) the reflected-parameter propagation of recordReflection is refuted to be order independent (F10, model reproduces the defect with "
+                "two visiting orders). Tied by compiling reflect_abi_code.go verbatim against strings.NewReplacer and the Coq specification, and by a reflection "
+                "program (two packages, all flow paths of the quantifier, json, FieldByName, methods) compared with the regular build; five limitations of the "
+                "pinned tree are recorded as known findings. Partial: the trie data structure and the type-closure recursion are checked, not proved.",
+        "note": "Trusted: Coq kernel; strings.NewReplacer as reference; harness main file; real builds. No axioms.",
+        "technique": "Coq proof of the replacer's priority scheme + refutation of order independence + in-Coq correspondence with the verbatim replacer source + reflection differential",
+    },
     "C04": {
         "text": "Theorems: text without any table key passes through byte for byte and is reported unmodified (any line endings); a key at the current position "
                 "is replaced by the first matching pair, so 'F.go:1' wins over its prefix 'F.go'; identifier nodes and IDENT tokens align once the dot of dot "
